@@ -69,6 +69,8 @@ def enrich(wn, wntr, rng, spec):
     wn.options.reaction.bulk_coeff = rng.choice([0.0, -1.2e-5])
     wn.options.time.start_clocktime = rng.choice([0, 3600 * 6, 12 * 3600 + 1800, 23 * 3600 + 59, 1800])
     wn.options.hydraulic.trials = rng.choice([40, 200])
+    # EPANET 2.2 [OPTIONS] PRESSURE: the unit of REPORTED pressures; the pressure-dependent-demand limits stay in the units of the flow system
+    wn.options.hydraulic.inpfile_pressure_units = rng.choice([None, None, "KPA", "PSI", "METERS"])
     links = [l for l in wn.pipe_name_list]
     # setting / speed controls and rules with value conditions
     pumps, valves, tanks = wn.pump_name_list, wn.valve_name_list, wn.tank_name_list
@@ -216,6 +218,14 @@ def check(run, replay=None):
             combos = [(u, v) for u in UNITS for v in (2.2, 2.0)]
             if not thorough:
                 combos = rng.sample(combos, 4)
+            if k % 4 == 1:
+                # directed: pressure-dependent demand + every spelling of the 2.2 PRESSURE option, in a metric and a US flow unit system
+                wn.options.hydraulic.demand_model = "PDD"
+                wn.options.hydraulic.inpfile_pressure_units = ["KPA", "PSI", "METERS"][(k // 4) % 3]
+                for extra in ((rng.choice(["LPS", "LPM", "MLD", "CMH", "CMD"]), 2.2), (rng.choice(["GPM", "CFS"]), 2.2)):
+                    if extra not in combos:
+                        combos.append(extra)
+                run.count("directed: PDD with PRESSURE " + wn.options.hydraulic.inpfile_pressure_units)
             for units, version in combos:
                 desc = {"spec": spec, "units": units, "version": version}
                 f1, f2 = os.path.join(tmp, "a.inp"), os.path.join(tmp, "b.inp")
